@@ -2,6 +2,7 @@ package main
 
 import (
 	"math/rand"
+	"strings"
 
 	"gopkg.in/yaml.v3"
 )
@@ -55,15 +56,27 @@ func init() {
 					if rng.Intn(2) == 0 {
 						b = noteSpellings()[rng.Intn(21)]
 					}
-					cases = append(cases, Case{"key": k, "root": r, "bass": b, "via": []string{"self", "rest"}[rng.Intn(2)]})
+					cases = append(cases, Case{"key": k, "root": r, "bass": b, "via": []string{"self", "rest"}[rng.Intn(2)], "uni": rng.Intn(3) == 0})
+				}
+			}
+			// a slice of the main table with the accidentals written as the Unicode signs
+			for i := range cases {
+				if i%8 == 3 && cases[i]["via"] == nil {
+					cases[i]["uni"] = true
 				}
 			}
 			return cases
 		},
 		Exec: func(c *Ctx, k Case) []Rec {
-			text := cs(k, "root")
+			spell := func(n string) string {
+				if cb(k, "uni") { // letters are upper case: a `b` is always the flat
+					return strings.NewReplacer("#", "♯", "b", "♭").Replace(n)
+				}
+				return n
+			}
+			text := spell(cs(k, "root"))
 			if cs(k, "bass") != "" {
-				text += "/" + cs(k, "bass")
+				text += "/" + spell(cs(k, "bass"))
 			}
 			text += "[1]"
 			args := []string{"text", "conv", "syllable", "--key", cs(k, "key")}
@@ -80,7 +93,7 @@ func init() {
 			text += "\n"
 			r := c.crd(args, []byte(text))
 			rec := Rec{"kind": "chord", "key": chars(cs(k, "key")), "root": chars(cs(k, "root")), "bass": chars(cs(k, "bass")),
-				"terminated": !r.TimedOut, "stdoutLen": len(r.Stdout), "stderrLen": len(r.Stderr),
+				"terminated": !r.TimedOut, "stdoutLen": len(r.Stdout), "stderrLen": len(r.Stderr), "uni": cb(k, "uni"),
 				"ok": false, "degree": []int{}, "base": []int{}, "hasBase": false, "n": 0}
 			var ins []yInstance
 			if len(r.Stdout) > 0 && yaml.Unmarshal(r.Stdout, &ins) == nil {
